@@ -1209,11 +1209,19 @@ func runLogic(c *core.Ctx) {
 func run(c *core.Ctx) {
 	runMatrix(c)
 	runLogic(c)
+	if c.Shard == 0 {
+		literalLeg(c)
+	}
 }
 
 // ------------------------------------------------------------------ replay
 
 func replay(c *core.Ctx, raw json.RawMessage) {
+	var lc litCase
+	if err := json.Unmarshal(raw, &lc); err == nil && lc.Leg == "literal" {
+		replayLiteral(c, lc)
+		return
+	}
 	var cs caseT
 	if err := json.Unmarshal(raw, &cs); err != nil {
 		c.HarnessError("bad case: %v", err)
